@@ -128,6 +128,7 @@ func formatSpaces(lines []formatLine) {
 				after.SpacesBefore = 0
 			}
 		}
+		separateLegacyIndexChain(line.lead)
 		for i, token := range line.assign {
 			if i == 0 {
 				// first token in "assign" always has one space before to
@@ -152,8 +153,32 @@ func formatSpaces(lines []formatLine) {
 				after.SpacesBefore = 0
 			}
 		}
+		separateLegacyIndexChain(line.assign)
 
 	}
+}
+
+// separateLegacyIndexChain keeps a space between two consecutive legacy
+// index steps, as in foo.0 .1, since removing it would produce foo.0.1 where
+// "0.1" is a single number token rather than two separate index steps.
+func separateLegacyIndexChain(toks Tokens) {
+	for i := 1; i+2 < len(toks); i++ {
+		if toks[i-1].Type == hclsyntax.TokenDot &&
+			toks[i].Type == hclsyntax.TokenNumberLit && isDecimalDigits(toks[i].Bytes) &&
+			toks[i+1].Type == hclsyntax.TokenDot &&
+			toks[i+2].Type == hclsyntax.TokenNumberLit {
+			toks[i+1].SpacesBefore = 1
+		}
+	}
+}
+
+func isDecimalDigits(b []byte) bool {
+	for _, c := range b {
+		if c < '0' || c > '9' {
+			return false
+		}
+	}
+	return len(b) > 0
 }
 
 func formatCells(lines []formatLine) {
